@@ -33,12 +33,13 @@ Proof.
   - destruct He as (Ha&_). exact Ha.
 Qed.
 
-Lemma c11_obs_model fl c s g sh : CoreInv s g -> c11_obs_ok g (model_obs fl c s sh) = true.
+Lemma c11_obs_model fl c s g sh : Sim fl s g -> c11_obs_ok g (model_obs fl c s sh) = true.
 Proof.
-  intros (Hc&_&Ha&Ho). unfold c11_obs_ok, model_obs. cbn [o_appr o_oper].
-  apply andb_true_iff. split; apply forallb_forall; intros x Hx; apply in_map_iff in Hx;
+  intros [(Hc&_&Ha&Ho) Hown]. unfold c11_obs_ok, model_obs. cbn [o_owner o_appr o_oper].
+  repeat (apply andb_true_iff; split); apply forallb_forall; intros x Hx; apply in_map_iff in Hx;
     destruct Hx as [p [<- _]]; cbn [fst snd].
-  - rewrite (get_approved_live s g Hc Ha). destruct (live_appr g (fst p)); [apply oaddr_eqb_refl | reflexivity].
+  - rewrite (own_of fl c s g Hown). apply oaddr_eqb_refl.
+  - rewrite (get_approved_live s g Hc Ha). apply oaddr_eqb_refl.
   - rewrite (is_approved_for_all_live s g Hc Ho). destruct (live_oper g (fst (fst p)) (snd (fst p))); reflexivity.
 Qed.
 
@@ -48,9 +49,9 @@ Proof.
   pose proof (sim_step fl c s g cl Hs) as Hs'.
   destruct (step_cases fl c s cl) as [(s'&rr&He&Est)|[He Est]]; rewrite Est in *; cbn [fst snd] in *;
     cbn [mon_from c11_step_ok fst snd].
-  - rewrite (c11_legal_model fl c s g cl s' rr Hs He). rewrite (c11_obs_model fl c s' _ sh (proj1 Hs')).
+  - rewrite (c11_legal_model fl c s g cl s' rr Hs He). rewrite (c11_obs_model fl c s' _ sh Hs').
     cbn [andb]. apply IH. exact Hs'.
-  - cbn [c11_legal ghost_step]. rewrite (c11_obs_model fl c s g sh (proj1 Hs)). cbn [andb]. apply IH. exact Hs.
+  - cbn [c11_legal ghost_step]. rewrite (c11_obs_model fl c s g sh Hs). cbn [andb]. apply IH. exact Hs.
 Qed.
 
 Theorem c11_check_accepts_model fl c now0 full l :
